@@ -239,4 +239,22 @@ theorem roundHalfEven_near (q : Rat) :
       · rw [abs_le]; constructor <;> linarith
       · rw [abs_le]; push_cast; constructor <;> linarith
 
+/-- integer numbers of seconds (up to 2⁵³) are converted exactly -/
+theorem spanUs_int (s : Int) (h : s.natAbs ≤ 9007199254740992) : spanUs (.int s) = tdNorm (s * 1000000) := by
+  have h1 : secondsOf (.int s) = .ok (s : Rat) := by
+    simp only [secondsOf, floatOfInt, if_pos h]
+  unfold spanUs
+  rw [h1]
+  simp only [bind, Except.bind]
+  exact tdSecondsRat_int s
+
+theorem instantPlusQuantity_int (I : Inst) (s : Int) (dim : List Rat) (hd : isTimeDim dim = true)
+    (h : s.natAbs ≤ 9007199254740992) :
+    instantPlusQuantity I (.int s) dim = plusSeconds I (s : Rat) := by
+  have h1 : secondsOf (.int s) = .ok (s : Rat) := by
+    simp only [secondsOf, floatOfInt, if_pos h]
+  unfold instantPlusQuantity validateTime
+  rw [h1]
+  simp only [hd, if_true, bind, Except.bind]
+
 end KaVerif.Instant
